@@ -560,4 +560,13 @@ func (s *Site) IsCollWrite() bool {
 	return s.Kind == SColl && !collReads[s.Method]
 }
 
-func fnShort(f *ssa.Function) string { return shortName(f.String()) }
+// fnShort: short name of a function; the receiver's pointer-ness is not part of the name
+// ("(*pkg.T).M" and "(pkg.T).M" are the same method for tables and reports), so switching a
+// type between value and pointer receivers changes nothing.
+func fnShort(f *ssa.Function) string {
+	n := shortName(f.String())
+	if strings.HasPrefix(n, "(*") {
+		n = "(" + n[2:]
+	}
+	return n
+}
